@@ -309,6 +309,14 @@ class FloatLiteral(Literal[float]):
     def __init__(self, token: TokenT, value: float):
         super().__init__(token, value)
 
+    def __str__(self) -> str:
+        rv = repr(self.value)
+        if "e" in rv and "." not in rv:
+            # `1e+16` would be read back as an integer literal.
+            mantissa, _, exponent = rv.partition("e")
+            rv = f"{mantissa}.0e{exponent}"
+        return rv
+
     def __eq__(self, other: object) -> bool:
         return isinstance(other, FloatLiteral) and self.value == other.value
 
